@@ -12,6 +12,7 @@ import (
 	"os"
 	"os/exec"
 	"path/filepath"
+	"sort"
 	"strings"
 
 	"github.com/Syuparn/pangaea/di"
@@ -69,6 +70,9 @@ var alphabet = []prog{
 	{Name: "native-error", Src: "[1, \"a\"].sum", Fails: true},
 	{Name: "inspect-protos", Src: "[Int.keys.len, Obj.keys.len, Arr.keys.len, Str.keys.len, Kernel.keys.len, Obj['p] == Obj['p]]"},
 	{Name: "define-func-and-call", Src: "helper := {|x| x * 2}\nhelper(21)"},
+	{Name: "expand-builtins-in-call", Src: "show := {|| \\_.keys.len > 3}\n[show(**Int, **{marker: \"set\"}), show(**Kernel, **{marker2: 1}, **{marker3: 2})]"},
+	{Name: "lookup-markers", Src: "[3['marker], Int['marker], Obj['marker], Kernel['marker2], 1.try.{|x| x.marker}.err?]"},
+	{Name: "bear-patch-builtins", Src: "c := Int.bear({extra: 1})\nd := {a: 1}.patch(b: 2)\n[c['extra], Int['extra], d, Obj['b]]"},
 }
 
 type obs struct {
@@ -78,6 +82,8 @@ type obs struct {
 	Trace  string `json:"trace"` // stack trace
 	Exit   int    `json:"exit"`
 	Stderr string `json:"stderr,omitempty"`
+	// ProtoChanged: the property tables of the built-in prototypes differ from what start-up produced
+	ProtoChanged string `json:"proto_changed,omitempty"`
 }
 
 type request struct {
@@ -108,12 +114,47 @@ func helper(args []string) int {
 	return 0
 }
 
+var builtinProtos = map[string]*object.PanObj{"Arr": object.BuiltInArrObj, "Obj": object.BuiltInObjObj, "BaseObj": object.BuiltInBaseObj, "Int": object.BuiltInIntObj, "Float": object.BuiltInFloatObj,
+	"Str": object.BuiltInStrObj, "Map": object.BuiltInMapObj, "Range": object.BuiltInRangeObj, "Func": object.BuiltInFuncObj, "Nil": object.BuiltInNilObj, "Iterable": object.BuiltInIterableObj,
+	"Comparable": object.BuiltInComparableObj, "Either": object.BuiltInEitherObj, "EitherVal": object.BuiltInEitherValObj, "EitherErr": object.BuiltInEitherErrObj, "Kernel": object.BuiltInKernelObj,
+	"Num": object.BuiltInNumObj, "Iter": object.BuiltInIterObj, "Wrappable": object.BuiltInWrappableObj, "Err": object.BuiltInErrObj, "JSON": object.BuiltInJSONObj, "Diamond": object.BuiltInDiamondObj, "Match": object.BuiltInMatchObj}
+
+// protoDigest lists, per built-in prototype, the names in its property table (Go-level view).
+func protoDigest() map[string]string {
+	d := map[string]string{}
+	for n, p := range builtinProtos {
+		if p == nil || p.Pairs == nil {
+			d[n] = "<nil>"
+			continue
+		}
+		var ks []string
+		for _, pair := range *p.Pairs {
+			ks = append(ks, fmt.Sprintf("%s=%p", pair.Key.Inspect(), pair.Value))
+		}
+		sort.Strings(ks)
+		d[n] = strings.Join(ks, ",")
+	}
+	return d
+}
+
+func protoDiff(a, b map[string]string) string {
+	var out []string
+	for n := range a {
+		if a[n] != b[n] {
+			out = append(out, n)
+		}
+	}
+	sort.Strings(out)
+	return strings.Join(out, ",")
+}
+
 // playground performs the call sequence of web/wasm/executor.go against the working tree.
 func playground(progs []prog) []obs {
 	constEnv := object.NewEnvWithConsts()
 	di.InjectBuiltInProps(constEnv)
 	constEnv.InjectFrom(object.BuiltInKernelObj)
 	var res []obs
+	base := protoDigest()
 	for _, p := range progs {
 		var stdout bytes.Buffer
 		constEnv.InjectIO(strings.NewReader(p.Stdin), &stdout)
@@ -139,6 +180,7 @@ func playground(progs []prog) []obs {
 			o.Value = evaluated.Repr()
 		}()
 		o.Stdout = stdout.String()
+		o.ProtoChanged = protoDiff(base, protoDigest())
 		res = append(res, o)
 	}
 	return res
@@ -166,8 +208,12 @@ func runTest(progs []prog) []obs {
 		os.WriteFile(filepath.Join(dir, name), []byte(src+"\n"), 0o644)
 	}
 	var stdout bytes.Buffer
+	// an interpreter of the same process image gives the reference property tables
+	ref := object.NewEnvWithConsts()
+	di.InjectBuiltInProps(ref)
+	base := protoDigest()
 	code := runscript.RunTest(dir, strings.NewReader(stdin), &stdout)
-	return []obs{{Stdout: stdout.String(), Exit: code}}
+	return []obs{{Stdout: stdout.String(), Exit: code, ProtoChanged: protoDiff(base, protoDigest())}}
 }
 
 // ---------------------------------------------------------------- check
@@ -229,6 +275,16 @@ func runProcess(c *core.Ctx, driver string, progs []prog) (obs, bool) {
 	return o, true
 }
 
+func lastName(t tcase) string {
+	// the program that ran last before the tables were found changed (history programs included)
+	names := []string{}
+	for _, h := range t.History {
+		names = append(names, alphabet[h].Name)
+	}
+	names = append(names, alphabet[t.Test].Name)
+	return strings.Join(names, "+")
+}
+
 func firstLine(s string) string {
 	if i := strings.IndexByte(s, '\n'); i >= 0 {
 		return s[:i]
@@ -274,6 +330,11 @@ func check(c *core.Ctx, t tcase) {
 		c.Nontrivial(1)
 	}
 	c.Outcome(t.Driver + ":" + map[bool]string{true: "same", false: "differs"}[got == want])
+	if got.ProtoChanged != "" {
+		c.Violation(core.Violation{Key: t.Driver + "/builtin-prototypes-changed/after-" + lastName(t), Case: core.JSON(t), Desc: t.desc(),
+			Expected: "built-in objects keep their original properties", Observed: "property tables changed: " + got.ProtoChanged})
+		return
+	}
 	if got == want {
 		return
 	}
